@@ -38,6 +38,10 @@ func binRun(specFile string) {
 		ctx, cancel := context.WithTimeout(context.Background(), 15*time.Second)
 		full := append([]string{"-basepath", spec.Root}, argv...)
 		cmd := exec.CommandContext(ctx, spec.Bin, full...)
+		if len(argv) == 3 && argv[0] == "!bind" {
+			// a mount the administrator makes by hand (real mount(2), inside the namespace)
+			cmd = exec.CommandContext(ctx, "mount", "--bind", argv[1], argv[2])
+		}
 		cmd.Env = []string{"HOME=/nonexistent-home", "PATH=/usr/bin:/bin", "LAYERCAKE_VERIF_LOG=" + oplog}
 		var stderr bytes.Buffer
 		cmd.Stderr = &stderr
@@ -282,9 +286,49 @@ func genBinOverlay(g *Gen) Case {
 	return Case{"op": "binovl", "cfg": defaultCfg(), "tree": t.list(), "steps": steps}
 }
 
+// hand-made mounts below a mounted layer's build root, then umount: a bind on a
+// subdirectory of an import and a second bind stacked on the import's own mountpoint, in
+// both orders (stacked last: the subdirectory mount is hidden below it)
+func genBinManual(g *Gen, variant int) Case {
+	t := &treeB{ents: map[string][]interface{}{}}
+	for _, h := range []string{"/", "/dev", "/proc", "/sys", "/run"} {
+		t.ents[h] = []interface{}{hx(h), "d"}
+	}
+	t.dir(VB)
+	t.dir(VB + "/layers")
+	t.dir(VB + "/export")
+	t.file(VB+"/default_layerconfig.skel", "import proc /proc /proc\n")
+	t.dir(VB + "/hostsrc/sub/deep")
+	l := glayer{name: "b0", imports: []string{"import proc /proc /proc", "import bind /VB/hostsrc /mnt/host"}}
+	genLayerTree(g, t, l, scnProfile{}, false)
+	mp := VB + "/layers/b0/build/mnt/host"
+	sub := []string{"!bind", VB + "/hostsrc/sub", mp + "/sub"}
+	stack := []string{"!bind", VB + "/hostsrc", mp}
+	steps := []interface{}{obj("argv", hxs([]string{"mount", "b0"}))}
+	switch variant % 4 {
+	case 0:
+		steps = append(steps, obj("argv", hxs(sub)), obj("argv", hxs(stack)))
+	case 1:
+		steps = append(steps, obj("argv", hxs(stack)), obj("argv", hxs(sub)))
+	case 2:
+		steps = append(steps, obj("argv", hxs(sub)))
+	default:
+		steps = append(steps, obj("argv", hxs(stack)))
+	}
+	steps = append(steps, obj("argv", hxs([]string{"status", "b0"})), obj("argv", hxs([]string{"umount", "b0"})),
+		obj("argv", hxs([]string{"list"})), obj("argv", hxs([]string{"umount", "-all"})))
+	return Case{"op": "binman", "cfg": defaultCfg(), "tree": t.list(), "steps": steps}
+}
+
 func init() {
 	ops["binscn"] = runBinScenario
 	ops["binovl"] = runBinScenario
+	ops["binman"] = runBinScenario
+	register("binman", func(g *Gen, tier string, emit func(Case)) {
+		for v := 0; v < 4; v++ {
+			emit(genBinManual(g, v))
+		}
+	})
 	register("binovl", func(g *Gen, tier string, emit func(Case)) {
 		n := 12
 		if tier == "thorough" {
